@@ -37,7 +37,7 @@ def gen(r, i):
 
 def run(ctx: fw.Ctx) -> int:
     ctx.matchers = {'F13': match_f13, 'F14': match_f14, 'F15': match_f15, 'F6': match_f6}
-    ctx.proofs()
+    ctx.proofs(extra=['Props/C02History.v'])
     trace_tie(ctx)
     cr.run_histories(ctx, ctx.scale(400, 8000), MONITORS, gen=gen)
     return ctx.finish(RULE, level_note=['closed loop: real kopf.operator() against harness/kv/fakeapi.py (Kubernetes rules assumed there)'])
